@@ -109,6 +109,20 @@ pub fn mk_key(k: &str, style: usize) -> Key {
     }
 }
 
+/// An iterator with an honest but loose `size_hint` (how much a bulk operation may pre-size must
+/// never decide what ends up in the index): exact, no upper bound, a smaller lower bound, a larger
+/// upper bound, or only an upper bound.
+pub struct Hinted<I> { inner: I, mode: usize }
+pub fn hinted<I: Iterator>(inner: I, mode: usize) -> Hinted<I> { Hinted { inner, mode: mode % 5 } }
+impl<I: Iterator> Iterator for Hinted<I> {
+    type Item = I::Item;
+    fn next(&mut self) -> Option<I::Item> { self.inner.next() }
+    fn size_hint(&self) -> (usize, Option<usize>) {
+        let (lo, hi) = self.inner.size_hint();
+        match self.mode { 0 => (lo, hi), 1 => (0, None), 2 => (lo / 2, None), 3 => (lo, hi.map(|h| h * 2 + 3)), _ => (0, hi) }
+    }
+}
+
 pub fn apply_real(op: &Op, regs: &mut [Object; REGISTERS], maps: &mut [Option<CodeMap>; REGISTERS], salt: usize) -> Applied {
     // any operation invalidates the code map of the register it names (re-established below by from_parse / clone_to)
     let kept = match op { Op::CloneTo { r, .. } => maps[*r].clone(), _ => None };
@@ -136,8 +150,8 @@ pub fn apply_real(op: &Op, regs: &mut [Object; REGISTERS], maps: &mut [Option<Co
                 regs[*r] = if es.len() % 2 == 0 { Object::from_vec(v) } else { Object::from(v) };
                 Res::Unit
             }
-            Op::FromIterEntries { r, es } => { regs[*r] = es.iter().map(|(k, v)| Entry::new(mk_key(k.as_str(), salt + k.len()), v.build())).collect::<Object>(); Res::Unit }
-            Op::FromIterPairs { r, es } => { regs[*r] = es.iter().map(|(k, v)| (mk_key(k.as_str(), salt + k.len()), v.build())).collect::<Object>(); Res::Unit }
+            Op::FromIterEntries { r, es } => { regs[*r] = hinted(es.iter().map(|(k, v)| Entry::new(mk_key(k.as_str(), salt + k.len()), v.build())), salt + es.len()).collect::<Object>(); Res::Unit }
+            Op::FromIterPairs { r, es } => { regs[*r] = hinted(es.iter().map(|(k, v)| (mk_key(k.as_str(), salt + k.len()), v.build())), salt + es.len()).collect::<Object>(); Res::Unit }
             Op::FromParse { r, es } => {
                 let mut text = String::new();
                 write_object_text(es, &mut text);
@@ -146,8 +160,8 @@ pub fn apply_real(op: &Op, regs: &mut [Object; REGISTERS], maps: &mut [Option<Co
                 maps[*r] = Some(map);
                 Res::Unit
             }
-            Op::ExtendEntries { r, es } => { regs[*r].extend(es.iter().map(|(k, v)| { if salt % 3 == 0 { nested_activity(); } Entry::new(mk_key(k.as_str(), salt + k.len()), v.build()) })); Res::Unit }
-            Op::ExtendPairs { r, es } => { regs[*r].extend(es.iter().map(|(k, v)| (mk_key(k.as_str(), salt + k.len()), v.build()))); Res::Unit }
+            Op::ExtendEntries { r, es } => { regs[*r].extend(hinted(es.iter().map(|(k, v)| { if salt % 3 == 0 { nested_activity(); } Entry::new(mk_key(k.as_str(), salt + k.len()), v.build()) }), salt + es.len())); Res::Unit }
+            Op::ExtendPairs { r, es } => { regs[*r].extend(hinted(es.iter().map(|(k, v)| (mk_key(k.as_str(), salt + k.len()), v.build())), salt + es.len())); Res::Unit }
             Op::GetOrInsertPanicking { r, k, mutable } => {
                 // the caller's default closure fails: when the key is present it must not even be called
                 let value = if *mutable { regs[*r].get_mut_or_insert_with(k.as_str(), || std::panic::panic_any(SimUnwind)).clone() }
